@@ -309,7 +309,7 @@ impl Check for C12 {
     fn run_shard(&self, ctx: &Ctx, rec: &mut Rec) {
         let total = match ctx.tier {
             Tier::Quick => 3600,
-            Tier::Thorough => 60000,
+            Tier::Thorough => 180000,
         };
         prop_loop(ctx, rec, "gen", strategy(), ctx.share(total), judge);
     }
